@@ -121,7 +121,8 @@ func DecodeConfig(r io.Reader) (image.Config, error) {
 	//   - VP8 (lossy) with alpha decodes to *image.NRGBA
 	cm := color.NRGBAModel
 	if frames := p.Frames(); len(frames) > 0 {
-		if !frames[0].IsLossless && frames[0].AlphaData == nil {
+		// Same test as decodeLossy: an empty ALPH chunk carries no alpha plane.
+		if !frames[0].IsLossless && len(frames[0].AlphaData) == 0 {
 			cm = color.YCbCrModel
 		}
 	} else if !feat.HasAlpha {
